@@ -113,6 +113,8 @@ TUpdate ==
        /\ (P("C07") /\ e.has_margins) =>
             /\ PosOrUnderflowM(e.smin_nn, "smin_nn") /\ PosOrUnderflowM(e.zmin_nn, "zmin_nn")
             /\ FGt(e.smin_o, e.interior_floor) /\ FGt(e.zmin_o, e.interior_floor)
+       \* C06/C07: mu is the complementarity <s,z> + tau*kappa over (barrier degree of the cones + 1)
+       /\ ((P("C06") \/ P("C07")) /\ IsFinite(e.mu_obs)) => (FSame(e.mu, e.mu_obs) \/ UlpWithin(e.mu, e.mu_obs, 4))
        \* the step length recorded for this pass is in [0,1]
        /\ P("C07") => (FGe(e.alpha, FZero) /\ FLe(e.alpha, FOne))
        /\ (e.alpha_zero <=> alphaZero)
